@@ -138,9 +138,10 @@ ApproxZipfDistribution<IntType>::UpdateCDF()
     }
     while (i < n_ + 1) {  // compute approximate values
       const auto low = 1.0 / pow(i, alpha_);
-      i += kSkipSize;
+      const auto width = (n_ + 1 - i < static_cast<IntType>(kSkipSize)) ? n_ + 1 - i : static_cast<IntType>(kSkipSize);
+      i += width;  // the last segment must not reach beyond the last bin
       const auto high = 1.0 / pow(i, alpha_);
-      base_prob += (low + high) * kSkipSize / 2;
+      base_prob += (low + high) * width / 2;
     }
     base_prob = 1.0 / base_prob;
 
